@@ -228,7 +228,7 @@ func ruleC11c(c *Ctx) {
 	p := c.P
 	roles := p.Roles()
 	n := 0
-	for _, reg := range muxRegistrations(p) {
+	for _, reg := range serviceRegistrations(p) {
 		fn := reg.Fn
 		if !roles.MutatorPath[fn] {
 			continue // Handle(): the pattern is the caller's; nothing is suppressed
@@ -643,6 +643,9 @@ func ruleC11e(c *Ctx) {
 		if seen[reg.Fn] {
 			continue
 		}
+		if p.isRecordReplay(reg) {
+			continue // the replay itself
+		}
 		seen[reg.Fn] = true
 		// registrations on the container's own mux: receiver mux derives from Container.ServeMux or a mux parameter
 		top := topFunc(reg.Fn)
@@ -652,9 +655,14 @@ func ruleC11e(c *Ctx) {
 		construct := "registrations by " + p.fname(reg.Fn) + " are replayed"
 		if replayed[reg.Fn] {
 			c.ok(p.fname(rm), construct, p.ipos(reg.Call), "reached from Remove's rebuild")
+		} else if ok, how, why := p.replayedByRecord(rm, reg); ok {
+			c.ok(p.fname(rm), construct, p.ipos(reg.Call), how)
 		} else {
-			c.bad(p.fname(rm), "registrations by "+p.fname(reg.Fn)+" are not replayed", p.ipos(reg.Call),
-				"Remove builds a new http.ServeMux and replays only what it reaches; patterns registered through "+p.fname(reg.Fn)+" are lost after any Remove")
+			msg := "Remove builds a new http.ServeMux and replays only what it reaches; patterns registered through " + p.fname(reg.Fn) + " are lost after any Remove"
+			if why != "" {
+				msg += " (" + why + ")"
+			}
+			c.bad(p.fname(rm), "registrations by "+p.fname(reg.Fn)+" are not replayed", p.ipos(reg.Call), msg)
 		}
 	}
 }
@@ -882,7 +890,7 @@ func ruleC11h(c *Ctx) {
 	p := c.P
 	roles := p.Roles()
 	seen := map[*ssa.Function]bool{}
-	for _, reg := range muxRegistrations(p) {
+	for _, reg := range serviceRegistrations(p) {
 		fn := reg.Fn
 		if seen[fn] || !roles.MutatorPath[fn] {
 			continue
@@ -890,7 +898,7 @@ func ruleC11h(c *Ctx) {
 		seen[fn] = true
 		name := p.fname(fn)
 		var regs []muxRegistration
-		for _, r := range muxRegistrations(p) {
+		for _, r := range serviceRegistrations(p) {
 			if r.Fn == fn {
 				regs = append(regs, r)
 			}
